@@ -46,8 +46,38 @@ def check(run):
     _siblings(run, ints)
     _maps(run, classes['RayTransferEmitter'])
     _pipelines(run, prog)
+    _own_copy(run, prog, classes['RayTransferEmitter'])
     from ..cachekey import check_caches
     check_caches(run, [m for k, m in prog.modules.items() if k.startswith('cherab.tools.raytransfer') and not k.endswith('#pxd')], 'C10-K')
+
+
+def _own_copy(run, prog, ci):
+    """R6: the emitter keeps its own copy of the voxel map: bins = max + 1 is computed once, so a map that can be changed through the caller's
+    array afterwards sends path length to bins that do not exist or to masked-out cells."""
+    from ..flow import copy_kind
+    from ..inline import resolver
+    run.describe('C10-R6', 'the stored voxel map is a copy of the array given to the setter, not the caller\'s array or a view of it')
+    fn = ci.setters.get('voxel_map')
+    run.subject('C10-R6')
+    if fn is None:
+        run.undecided('C10-R6', 'RayTransferEmitter.voxel_map', 'setter not found')
+        return
+    p = fn.args.args[1].arg
+    res = resolver(fn)
+    sts = [(t, v, st) for t, v, st in stores(fn) if isinstance(t, ast.Attribute) and norm(t) == 'self._voxel_map']
+    if not sts:
+        run.undecided('C10-R6', 'RayTransferEmitter.voxel_map', 'no store of the map')
+        return
+    kinds = [(copy_kind(res(v), {p}), st) for t, v, st in sts]
+    bad = [st for k, st in kinds if k == 'alias']
+    if bad:
+        run.fail('C10-R6', '%s|RayTransferEmitter|setter:voxel_map|alias' % ci.mod.name, ci.mod.relpath, bad[0].lineno,
+                 "the voxel_map setter stores %s: when the caller's array already has the right type and layout it is kept as is, so later in-place "
+                 "changes of that array change the map under the emitter while bins stays what it was" % norm(bad[0].value)[:70])
+    elif all(k == 'copy' for k, st in kinds):
+        run.ok('C10-R6', 'RayTransferEmitter.voxel_map', 'stored as %s' % norm(sts[0][1])[:50])
+    else:
+        run.undecided('C10-R6', 'RayTransferEmitter.voxel_map', 'conversion %s not recognised' % norm(sts[0][1])[:50])
 
 
 def _pipelines(run, prog):
@@ -75,8 +105,15 @@ def _pipelines(run, prog):
                 n += 1
                 run.subject('C10-R5')
                 writes = eff.closure(ik, im).writes if im is not None else {}
-                if f in writes:
+                from ..flow import enclosing_conditions
+                direct = [st for st in ast.walk(im) if isinstance(st, ast.Assign) and any(isinstance(t, ast.Attribute) and self_chain(t) == f for t in st.targets)] if im is not None else []
+                uncond = [st for st in direct if not enclosing_conditions(im, st)]
+                if f in writes and (uncond or not direct):
                     run.ok('C10-R5', '%s.%s' % (ci.name, f), 'accumulated by %s, reset by %s.%s' % (acc_m, ik.name, init_m), sample=False)
+                elif f in writes:
+                    run.fail('C10-R5', '%s|%s|%s|conditional-reset:%s' % (ci.mod.name, ci.name, init_m, f), ci.mod.relpath, direct[0].lineno,
+                             '%s.%s accumulates into %s but %s re-initialises it only when %s: otherwise a second observation starts from the totals of the '
+                             'first' % (ci.name, acc_m, f, init_m, ' and '.join(norm(e) for e, pol in enclosing_conditions(im, direct[0]) if isinstance(e, ast.AST))))
                 else:
                     run.fail('C10-R5', '%s|%s|%s|not-reset:%s' % (ci.mod.name, ci.name, init_m, f), ci.mod.relpath, (im or am).lineno,
                              '%s.%s accumulates into %s but %s does not re-initialise it: a second observation with the same pipeline starts from the '
@@ -349,6 +386,8 @@ def _maps(run, ci):
 
 
 MUTANTS = [
+    dict(name='voxel-map-not-copied', file=FILE, find="        self._voxel_map = value.astype(np.int32)", replace="        self._voxel_map = np.ascontiguousarray(value, dtype=np.int32)", expect='C10-R6'),
+    dict(name='pipeline0d-matrix-kept-when-size-unchanged', file=PIPES, find="        self._bins = spectral_bins\n        self._matrix = np.zeros(spectral_bins)\n", replace="        self._bins = spectral_bins\n        if self._matrix is None or self._matrix.shape != (spectral_bins,):\n            self._matrix = np.zeros(spectral_bins)\n", expect='C10-R5'),
     dict(name='pipeline0d-sample-count-not-reset', file=PIPES, find="        self._samples = 0\n        self._bins = spectral_bins", replace="        self._bins = spectral_bins", expect='C10-R5'),
     dict(name='guard-removed', file=FILE, find="        if isource_current > -1:\n            spectrum.samples_mv[isource_current] += res\n\n        return spectrum", replace="        spectrum.samples_mv[isource_current] += res\n\n        return spectrum", occurrence=0, of=2, expect='C10-R'),
     dict(name='final-flush-removed', file=FILE, find="        if isource_current > -1:\n            spectrum.samples_mv[isource_current] += res\n\n        return spectrum", replace="        return spectrum", occurrence=1, of=2, expect='C10-R2'),
